@@ -17,15 +17,17 @@ def run(ctx):
         for a in range(22):
             jobs.append((exe, [d, a, a + 1, t if be == "asm" else 0], be))
     # the system-source interface is chosen by libc probes: the same histories (depth 2 | 3) with the library configured for getentropy() and for syscall(SYS_getrandom)
-    for be, drop, tag in (("asm", ("HAVE_GETRANDOM",), "getentropy"), ("c32", ("HAVE_GETENTROPY", "HAVE_GETRANDOM"), "syscall")) + ((("generic", ("HAVE_GETRANDOM",), "getentropy"),) if t else ()):
-        lib = build.build_lib(be, drop=drop)
+    DEV = ("HAVE_GETENTROPY", "HAVE_GETRANDOM", "HAVE_SYS_SYSCALL_H")
+    for be, drop, tag in (("asm", ("HAVE_GETRANDOM",), "getentropy"), ("c32", ("HAVE_GETENTROPY", "HAVE_GETRANDOM"), "syscall"), ("asm", DEV, "device"), ("c32", DEV, "device-fd0")) + ((("generic", ("HAVE_GETRANDOM",), "getentropy"),) if t else ()):
+        lib = build.build_lib(be, drop=drop, extra=(["-U__linux__", "-U__linux", "-Ulinux"] if tag.startswith("device") else []))
         ctx.configs.append(lib["desc"] + " via " + tag)
-        exe = build.build_prog("c15", ["harness/c15.c", "harness/sysrand.c", "ref/ref.c"], lib, opt="-O2", extra=(["-DVP_SYSRAND_SYSCALL"] if tag == "syscall" else []))
+        exe = build.build_prog("c15", ["harness/c15.c", "harness/sysrand.c", "ref/ref.c"], lib, opt="-O2",
+                               extra={"syscall": ["-DVP_SYSRAND_SYSCALL"], "device": ["-DVP_SYSRAND_DEVICE"], "device-fd0": ["-DVP_SYSRAND_DEVICE", "-DVP_SYSRAND_FD=0"]}.get(tag, []))
         for a in range(22):
             jobs.append((exe, [3 if t else 2, a, a + 1, 0], be + "-" + tag))
     common.parallel(lambda j: common.run_harness(ctx, j[0], j[1], label=j[2]), jobs)
     ctx.assumptions += [
-        "the system source is libc getrandom() -- in two further configurations getentropy() and syscall(SYS_getrandom) -- defined by the harness (scripted tape, per-call failure plan); the library's own ascon-trng-dev-random.c stays in place",
+        "the system source is libc getrandom() -- in further configurations getentropy(), syscall(SYS_getrandom) and the /dev/urandom device (descriptor 100 and descriptor 0) -- defined by the harness (scripted tape, per-call failure plan); the library's own ascon-trng-dev-random.c stays in place",
         "forward security is judged structurally: applying the reference inverse permutation to the canonical state after every operation must give an all-zero rate",
         "the reseed trigger is judged on histories without save/load (whose internal fetches are an implementation detail); status results are judged against random.h: init/reseed/ascon_random non-zero iff the source succeeded, save/load 0 on success and -1 on storage failure or invalid arguments",
         "influence is a probabilistic statement (an accidental collision on >= 16 output bytes has probability 2^-128)",
